@@ -1,13 +1,22 @@
-//! C02, stream `C02.dup`: the struct half of the Cast arm of the Metal `generate_expression` against its Lean model
-//! (`Model.MslDup.structCastNow`: the side-effect test as a table, `get_member_count`, the decision repeat / refuse).
+//! C02, stream `C02.dup`: the two arms of the Metal exporter that write an operand more than once, against their Lean model
+//! (`Model.MslDup`): the struct half of the Cast arm of `generate_expression` (`structCastNow`: the side-effect test as a table,
+//! `get_member_types`, the decision convert-per-element / refuse, which clauses are the operand itself and which the operand
+//! converted to the element's type — fix 5d2f434) and the floating-point `%=` arm of `generate_intrinsic_op` (`remAssignNow`:
+//! `is_plain_place` / `is_plain_index` / `is_free_of_writes` as tables, the decision `a = fmod(a, b)` / refuse — fixes 92d66eb,
+//! 35faaaa).
 //!
-//! request : C02.dup \t <source, one line> \t <cast> ;; <cast> …     with <cast> = <type shape> @ <operand>
-//!           type shape  (leaf) | (arr T n) | (arr T none) | (struct T…)          — what `get_member_count` distinguishes
-//!           operand     (Ctor field…), field = p (not an expression) | (one E) | (many E…)   — constructors of ir::Expression
-//!           one entry per `Cast(struct type, operand of another type)` in the bodies, initialisers and default arguments
-//!           of the module (on replay only the source is read)
-//! observe : `casts n1 n2 …` — the numbers of clauses of the braced lists in the emitted module, sorted — or
-//!           `diagnostic GenerateError(UnsupportedCast)`; a module rejected for another reason is skipped
+//! request : C02.dup \t <source, one line> \t <entry> ;; <entry> …
+//!           entry       cast <type shape> @ <type id of the operand> @ <operand>   |   rem <target> @ <right operand>
+//!           type shape  (leaf K) | (arr T n) | (arr T none) | (struct T…)   — what `get_member_types` distinguishes; K = the
+//!                       unmodified TypeId of the element
+//!           operand     (Ctor field…), field = p (not an expression) | o:<IntrinsicOp> | (one E) | (many E…)
+//!           one `cast` entry per `Cast(struct type, operand of another type)`, one `rem` entry per `RemainderAssignment` on a
+//!           floating-point first operand, in the bodies, initialisers and default arguments of the module (on replay only the
+//!           source is read)
+//! observe : `casts c1 c2 … ; rem k` — per emitted braced list `<number of clauses>:<class of clause 1>.<class of clause 2>…`
+//!           (clauses with the same text get the same class, numbered by first occurrence), sorted; k = the number of emitted
+//!           `A = metal::fmod(A, B)` — or `diagnostic GenerateError(UnsupportedCast)` /
+//!           `diagnostic GenerateError(ComplexRemainderAssignment)`; a module rejected for another reason is skipped
 //! oracle  : `ok` (the meaning of what is emitted is judged by the `C02.vfn` cases of the same program)
 use crate::compile_util::*;
 use crate::util::*;
@@ -15,7 +24,7 @@ use rssl::ir;
 
 fn cty(m: &ir::Module, id: ir::TypeId, depth: u32) -> String {
     if depth > 16 {
-        return "(leaf)".into();
+        return "(leaf 0)".into();
     }
     let id = m.type_registry.remove_modifier(id);
     match m.type_registry.get_type_layer(id) {
@@ -26,7 +35,7 @@ fn cty(m: &ir::Module, id: ir::TypeId, depth: u32) -> String {
             let ms: Vec<String> = sd.members.iter().map(|x| cty(m, x.type_id, depth + 1)).collect();
             format!("(struct{}{})", if ms.is_empty() { "" } else { " " }, ms.join(" "))
         }
-        _ => "(leaf)".into(),
+        _ => format!("(leaf {})", id.0),
     }
 }
 
@@ -39,7 +48,7 @@ fn many<'a>(es: impl Iterator<Item = &'a ir::Expression>) -> String {
     format!("(many{}{})", if v.is_empty() { "" } else { " " }, v.join(" "))
 }
 
-/// the constructor tree of an expression; payloads are not needed by the test
+/// the constructor tree of an expression; the only payload a test looks at is the operator of an `IntrinsicOp`
 pub fn dexpr(e: &ir::Expression) -> String {
     use ir::Expression as E;
     match e {
@@ -60,7 +69,7 @@ pub fn dexpr(e: &ir::Expression) -> String {
         E::Constructor(_, slots) => format!("(Constructor p {})", many(slots.iter().map(|s| &s.expr))),
         E::Cast(_, x) => format!("(Cast p {})", one(x)),
         E::SizeOf(_) => "(SizeOf p)".into(),
-        E::IntrinsicOp(_, args) => format!("(IntrinsicOp p {})", many(args.iter())),
+        E::IntrinsicOp(op, args) => format!("(IntrinsicOp o:{:?} {})", op, many(args.iter())),
     }
 }
 
@@ -76,7 +85,21 @@ fn walk_expr(m: &ir::Module, e: &ir::Expression, out: &mut Vec<String>) {
                     _ => false,
                 };
                 if input != unmod && !from_cb {
-                    out.push(format!("{} @ {}", cty(m, unmod, 0), dexpr(inner)));
+                    out.push(format!("cast {} @ {} @ {}", cty(m, unmod, 0), input.0, dexpr(inner)));
+                }
+            }
+        }
+    }
+    if let E::IntrinsicOp(ir::IntrinsicOp::RemainderAssignment, args) = e {
+        // the floating-point branch of the arm: decided on the scalar kind of the first operand's type
+        if let Some(Ok(ety)) = args.first().map(|a| a.get_type(m)) {
+            let unmod = m.type_registry.remove_modifier(ety.0);
+            if matches!(
+                m.type_registry.extract_scalar(unmod),
+                Some(ir::ScalarType::Float16) | Some(ir::ScalarType::Float32) | Some(ir::ScalarType::Float64)
+            ) {
+                if args.len() == 2 {
+                    out.push(format!("rem {} @ {}", dexpr(&args[0]), dexpr(&args[1])));
                 }
             }
         }
@@ -155,7 +178,8 @@ fn walk_block(m: &ir::Module, b: &ir::ScopeBlock, out: &mut Vec<String>) {
     }
 }
 
-/// every cast to a struct type from a value of another type, in the functions that have a body and are not templates
+/// every cast to a struct type from a value of another type and every floating-point `%=`, in the functions that have a body
+/// and are not templates
 pub fn struct_casts(m: &ir::Module) -> Vec<String> {
     let mut out = Vec::new();
     for id in m.function_registry.iter() {
@@ -177,13 +201,43 @@ pub fn struct_casts(m: &ir::Module) -> Vec<String> {
     out
 }
 
-fn count_binit(s: &super::sx::Sx, out: &mut Vec<usize>) {
+/// per braced list: `<n>:<classes>` — clauses with the same text share a class, classes numbered by first occurrence
+fn count_binit(s: &super::sx::Sx, out: &mut Vec<String>) {
     if let super::sx::Sx::L(items) = s {
         if s.head() == "binit" {
-            out.push(s.args().len().saturating_sub(1));
+            let clauses: Vec<String> = s.args().iter().skip(1).map(|c| c.show()).collect();
+            let mut seen: Vec<&String> = Vec::new();
+            let mut classes = Vec::new();
+            for c in &clauses {
+                let k = match seen.iter().position(|x| *x == c) {
+                    Some(k) => k,
+                    None => {
+                        seen.push(c);
+                        seen.len() - 1
+                    }
+                };
+                classes.push(k.to_string());
+            }
+            out.push(format!("{}:{}", clauses.len(), classes.join(".")));
         }
         for i in items {
             count_binit(i, out);
+        }
+    }
+}
+
+/// the number of `A = metal::fmod(A, B)`: an assignment whose value is the library remainder of its own target
+fn count_rem(s: &super::sx::Sx, out: &mut usize) {
+    if let super::sx::Sx::L(items) = s {
+        let a = s.args();
+        if s.head() == "bin" && a.len() == 3 && a[0].atom() == "Assignment" && a[2].head() == "call" {
+            let c = a[2].args();
+            if c.len() == 3 && c[0].atom() == "metal::fmod" && c[1] == a[1] {
+                *out += 1;
+            }
+        }
+        for i in items {
+            count_rem(i, out);
         }
     }
 }
@@ -202,8 +256,10 @@ pub fn run_program(src: &str, out: &mut Out, hist: &mut Hist) {
     match guard(|| rssl_msl::verif_generate_ast(&ir)) {
         Ok(Ok(m)) => {
             let mut counts = Vec::new();
+            let mut rems = 0usize;
             for item in super::vmconv::module(&m) {
                 count_binit(&item, &mut counts);
+                count_rem(&item, &mut rems);
             }
             counts.sort();
             hist.add("dup:exported");
@@ -214,12 +270,15 @@ pub fn run_program(src: &str, out: &mut Out, hist: &mut Hist) {
                 Some(f) => format!("FAIL:{}", f),
                 None => "ok".to_string(),
             };
-            out.case(&req, &format!("casts{}{}", if counts.is_empty() { "" } else { " " }, counts.iter().map(|c| c.to_string()).collect::<Vec<_>>().join(" ")), &oracle);
+            out.case(&req, &format!("casts{}{} ; rem {}", if counts.is_empty() { "" } else { " " }, counts.join(" "), rems), &oracle);
         }
         Ok(Err(e)) => {
             let text = one_line(&format!("{:?}", e));
             if text.contains("UnsupportedCast") {
                 hist.add("dup:unsupported-cast");
+                out.case(&req, &format!("diagnostic {}", text.chars().take(60).collect::<String>()), "ok");
+            } else if text.contains("ComplexRemainderAssignment") {
+                hist.add("dup:complex-remainder-assignment");
                 out.case(&req, &format!("diagnostic {}", text.chars().take(60).collect::<String>()), "ok");
             } else {
                 hist.add("dup:other-diagnostic");
